@@ -332,3 +332,9 @@ fn params_progress_contract(ka: usize) {
         Err(e) => assert!(matches!(e, ParseError::SyntaxError(_))),
     }
 }
+
+// The list loops of parse_call_expr / parse_array_expr / parse_block_statement (arguments, elements, statements with
+// optional separators) were put under the same kind of modular contract (element parser replaced by a recorder that
+// consumes one token, tokens from the ghost queue, result compared with the grammar `element (sep? element)* sep?
+// close`) and do NOT finish: pushing `Expr` values into the result Vec makes CBMC run > 20 min at 7-9 GB even for the
+// single concrete input `[1, 1]` (measured at the end of the build). They stay without a contract (DESIGN.md 3.11).
